@@ -227,6 +227,9 @@ type vfGW struct {
 	valLog    []string
 	held      map[string]bool // NewStream to this peer is blocked
 	meta      *vfMetaStore
+	ymu       sync.Mutex
+	yArmed    map[string]bool          // "point|peer": the next goroutine arriving there is held
+	yParked   map[string]chan struct{} // goroutines currently held
 	cancelled []*Subscription
 	closeErr  map[string]string
 }
@@ -349,6 +352,8 @@ func newVfGW(x *vfExec, cfg *vfGWCfg, msgs map[string]vfMsgSpec, extra ...Option
 		}
 	}
 	opts = append(opts, extra...)
+	g.yArmed, g.yParked = map[string]bool{}, map[string]chan struct{}{}
+	verifHooks.yield = g.onYield
 	n, err := vfNewNode(g.w, "N", cfg.Router, opts...)
 	if err != nil {
 		panic(err)
@@ -490,6 +495,46 @@ func (g *vfGW) release(val, msg string, r ValidationResult) bool {
 		}
 	}
 	return false
+}
+
+// onYield is the verifYield hook: a stream goroutine of the node passes a named
+// point between two hand-offs to the event loop; if the explorer armed a hold
+// for (point, peer) the goroutine parks here until released.
+func (g *vfGW) onYield(point string, p peer.ID) {
+	key := point + "|" + vfName(p)
+	g.ymu.Lock()
+	if !g.yArmed[key] {
+		g.ymu.Unlock()
+		return
+	}
+	delete(g.yArmed, key)
+	ch := make(chan struct{})
+	g.yParked[key] = ch
+	g.ymu.Unlock()
+	<-ch
+}
+
+func (g *vfGW) releaseYield(key string) {
+	g.ymu.Lock()
+	if ch, ok := g.yParked[key]; ok {
+		close(ch)
+		delete(g.yParked, key)
+	}
+	g.ymu.Unlock()
+}
+
+func (g *vfGW) yieldState() (armed, parked []string) {
+	g.ymu.Lock()
+	defer g.ymu.Unlock()
+	for k := range g.yArmed {
+		armed = append(armed, k)
+	}
+	for k := range g.yParked {
+		parked = append(parked, k)
+	}
+	sort.Strings(armed)
+	sort.Strings(parked)
+	return
 }
 
 func (g *vfGW) now() time.Duration { return time.Since(g.t0) }
@@ -811,6 +856,12 @@ func (g *vfGW) apply(evFull string) {
 		if s := g.fake(arg(1)).out; s != nil {
 			s.Close()
 		}
+	case "holdy":
+		g.ymu.Lock()
+		g.yArmed[arg(1)+"|"+arg(2)] = true
+		g.ymu.Unlock()
+	case "rely":
+		g.releaseYield(arg(1) + "|" + arg(2))
 	case "vrel":
 		g.release(arg(1), arg(2), vfVerdict(arg(3)))
 	case "hold":
@@ -1041,12 +1092,21 @@ func (g *vfGW) canon() string {
 	for _, t := range vfSortedKeys(g.subs) {
 		fmt.Fprintf(&sb, "\nsubs[%s]=%d relays=%d", t, len(g.subs[t]), len(g.relays[t]))
 	}
-	fmt.Fprintf(&sb, "\nvalpending=%v held=%v", g.pendingVals(), vfKeys(g.held))
+	ya, yp := g.yieldState()
+	fmt.Fprintf(&sb, "\nvalpending=%v held=%v yield-armed=%v yield-parked=%v", g.pendingVals(), vfKeys(g.held), ya, yp)
 	return sb.String()
 }
 
 func (g *vfGW) finish() {
 	vfCh.begin(nil)
+	g.ymu.Lock()
+	g.yArmed = map[string]bool{}
+	for k, ch := range g.yParked {
+		close(ch)
+		delete(g.yParked, k)
+	}
+	g.ymu.Unlock()
+	defer func() { verifHooks.yield = nil }()
 	vfTeardown(g.w, g.n)
 	if left := vfLeftovers(); len(left) > 0 {
 		g.x.r.count("hygiene_leftover_goroutines", int64(len(left)))
